@@ -139,7 +139,8 @@ def required(tier):
     cover += ["container:da", "container:ds", "container:list", "cplx:True", "sdims:2", "op:combo", "aligned:phase", "aligned:none"]
     cover += ["input:list_sample_axes_differ", "input:fields_sample_order_differ"]
     cover += [f"bands:{c}:std{int(st)}cos{int(cl)}" for c in c07_bands.CLASSES for st, cl in c07_bands.FLAGS]
-    return {"mon": ["backend:svd", "relation:compared", "relation:transform", "relation:lat_bands"], "cover": cover, "max_refused_share": 0.2}
+    cover += ["bands:weights"] + [f"sdims_nan:{c}" for c in c07_bands.SDIM_CLASSES]
+    return {"mon": ["backend:svd", "relation:compared", "relation:transform", "relation:lat_bands", "relation:reversed_lat_with_weights", "relation:sdims_nan"], "cover": cover, "max_refused_share": 0.2}
 
 
 # ----------------------------------------------------------------------------
